@@ -694,6 +694,18 @@ func registerIntrinsics(e *Engine) {
 	}
 	I["bytes.Compare"] = I["internal/bytealg.Compare"]
 	I["bytes.Equal"] = func(p *Path, fr *frame, fn *ssa.Function, args []Value, pos token.Pos) Value {
+		// two whole proto encodings: the encoding is deterministic and injective on the normalised message,
+		// so the byte strings are equal exactly when the messages are (the opaque bytes carry no content)
+		if a, b := args[0].(SliceV), args[1].(SliceV); a.O != nil && b.O != nil && a.Len > 0 && b.Len > 0 {
+			ba, ok1 := p.protoBlobs[a.O]
+			bb, ok2 := p.protoBlobs[b.O]
+			if ok1 && ok2 && a.Off == 0 && b.Off == 0 && a.Len == len(p.backing(a.O).E) && b.Len == len(p.backing(b.O).E) {
+				if !types.Identical(ba.typ, bb.typ) {
+					return tFalse
+				}
+				return p.deepEq(ba.snap, bb.snap, 0)
+			}
+		}
 		return p.eqValue(StrV{p.sliceTerms(args[0].(SliceV))}, StrV{p.sliceTerms(args[1].(SliceV))})
 	}
 	I["strings.Contains"] = func(p *Path, fr *frame, fn *ssa.Function, args []Value, pos token.Pos) Value {
